@@ -1297,3 +1297,25 @@ func (c *Ctx) FreshOver(prefix string, s Sort, deps ...*Term) *Term {
 	args := append(append([]*Term{}, c.FreshParams...), vars...)
 	return c.App(n, s, args...)
 }
+
+// MentionsFunc reports whether an application of the named function occurs in t.
+func MentionsFunc(t *Term, name string) bool {
+	seen := map[int]bool{}
+	var rec func(x *Term) bool
+	rec = func(x *Term) bool {
+		if seen[x.ID] {
+			return false
+		}
+		seen[x.ID] = true
+		if (x.Op == "app" || x.Op == "sym") && x.Name == name {
+			return true
+		}
+		for _, a := range x.Args {
+			if rec(a) {
+				return true
+			}
+		}
+		return false
+	}
+	return rec(t)
+}
